@@ -1,4 +1,5 @@
 import RsslVerif.Model.FixpointBridge
+import RsslVerif.Model.FixpointNames
 import RsslVerif.Driver.C01
 import RsslVerif.Driver.Util
 /-!
@@ -9,6 +10,9 @@ erases it to the C03 expression type (`FixpointBridge.erase`), and for every exp
 front end makes of the exported text: `Fixpoint.unelab` (the exporter as the front end reads it), `Elab.elabTop`
 (C03's model of `parse_expr`) in the environment of the exported program (`Fixpoint.uniqueNames`), then the conversion
 the position asks for.  Printed in the form the harness prints the real second-generation IR.
+`C04.names <descriptor> <printed names>`: `Model.FixpointNames.predict` — which entity every qualified / unqualified use
+of the descriptor program is looked up to in the first generation and, through the emitted root-relative paths, in the
+second.
 `C04.fix` requests have no model side (the whole-program fixpoint is the property's own oracle).
 -/
 namespace RsslVerif.Driver.C04
@@ -128,6 +132,7 @@ def handleReelab (ctx ir : String) : String :=
 def handle (op : String) (args : List String) : String :=
   match op, args with
   | "C04.reelab", [_src, ctx, ir] => if ctx == "-" then "skip" else handleReelab ctx ir
+  | "C04.names", [desc, printed] => RsslVerif.Model.FixpointNames.predict desc printed
   | "C04.fix", _ => "unsupported"
   | _, _ => "unsupported-op"
 
